@@ -69,7 +69,7 @@ def open_findings():
         return {k['id'] for k in json.load(open(kp))} if os.path.exists(kp) else set()
 
 
-LOOKUP = ['find', 'contains', 'count', 'lower_bound', 'upper_bound', 'equal_range']
+LOOKUP = ['find', 'bounds', 'equal_range']   # q_find: find/contains/count; q_bounds: lower_bound/upper_bound; q_equal_range
 LOOKUP_H = [e + '_h' for e in LOOKUP]
 INS = ['insert_l', 'insert_r', 'emplace']
 INS_IT = [e + '_it' for e in INS]
@@ -78,12 +78,13 @@ HINT = ['insert_hint_l', 'insert_hint_r', 'emplace_hint']
 
 def uw(cap):
     objsz = cap * 4 + 8
-    return {'d_sym_block.0': objsz + 2, 'd_sym_block.1': objsz + 2, 'd_slack.0': cap * 4 + 2, 'd_slack.1': cap * 4 + 2, 'll_memset.0': objsz + 2, 'll_memcpy.0': objsz + 2,
-            'll_memmove.0': objsz + 2, 'll_memmove.1': objsz + 2, 'll_undef_bytes.0': objsz + 10}
+    return {'d_sym_block.0': objsz + 2, 'd_sym_block.1': objsz + 2, 'd_slack.0': cap * 4 + 2, 'd_slack.1': cap * 4 + 2,
+            'll_memset.0': objsz + 2, 'll_memcpy.0': objsz + 2, 'll_memmove.0': objsz + 2, 'll_memmove.1': objsz + 2, 'll_undef_bytes.0': objsz + 10}
 
 
 def queries(tier, prop='C09'):
     ub = prop == 'C02'
+    quick = tier == 'quick'
     opn = open_findings()
     eqr_ok, insu_ok = probes()
     out = []
@@ -92,98 +93,126 @@ def queries(tier, prop='C09'):
         cfg = {'SUBJ': subj, 'CMP': cmp_, 'CAP': cap, 'NA': na, 'NB': nb}
         if extra:
             cfg.update(extra)
-        q = dict(entry='q_' + entry, cfg=cfg, unwind=unwind or cap + 3, unwindset=uw(cap), budget=budget or (120 if tier == 'quick' else 600),
+        q = dict(entry='q_' + entry, cfg=cfg, unwind=unwind or cap + 3, unwindset=uw(cap), budget=budget or (120 if quick else 600),
                  solver=solver, ub=ub, nofunc=ub)
         if confirm_only:
             q['confirm_only'] = True
         out.append(q)
 
-    if tier == 'quick':
-        grid = [(3, 0), (3, 1), (3, 2)]                       # (CAP, CMP)
+    # (CAP, CMP, level): 2 = every entry and every (NA, NB) pair; 1 = comparator-dependent entries, few (NA, NB) pairs; 0 = lookups (+ heterogeneous),
+    # single-key insert / erase(key) only (the transparent less<> orders like less<int>). The thorough tier runs everything at level 2.
+    if quick:
+        grid = [(3, 0, 2), (3, 1, 1), (3, 2, 0)]
     else:
-        grid = [(3, 0), (3, 1), (3, 2), (4, 0), (4, 1), (4, 2)]
-    if ub and tier == 'quick':
-        grid = [(3, 0), (3, 2)]
-    for (cap, cmp_) in grid:
+        grid = [(3, 0, 2), (3, 1, 2), (3, 2, 2), (4, 0, 2), (4, 1, 2), (4, 2, 2)]
+    if ub:   # C02 (UB build, functional assertions off): the same kernels on a smaller grid; entries that are stubs or repeat a kernel call are left out
+        grid = [(3, 0, 1), (3, 2, 0)] if quick else [(3, 0, 2), (3, 1, 1), (3, 2, 0), (4, 0, 1)]
+    for (cap, cmp_, lvl) in grid:
+        full = lvl == 2
         for subj in (0, 1):
             ss = subj == 0
             for na in range(cap + 1):
-                add('observe', subj, cmp_, cap, na)
-                add('clear', subj, cmp_, cap, na)
+                if full:
+                    add('observe', subj, cmp_, cap, na)
+                    add('clear', subj, cmp_, cap, na)
                 for e in LOOKUP + (LOOKUP_H if cmp_ == 2 else []):
                     x = {}
                     co = False
                     if ss and e.startswith('equal_range'):
                         if eqr_ok:
                             x = {'HAVE_SS_EQR': 1}
-                        elif 'C09_static_set_equal_range_ill_formed' in opn:
-                            co = True
-                        if not (na == 0 and cmp_ in (0, 2) and cap == 3) and not eqr_ok:
-                            continue     # one (two with the heterogeneous form) failing stub is enough while the member does not compile
+                        else:
+                            # the member does not compile: one failing stub per form (plain, heterogeneous) stands for it
+                            if not (na == 0 and cap == 3 and ((e == 'equal_range' and cmp_ == 0) or (e == 'equal_range_h' and cmp_ == 2))):
+                                continue
+                            co = 'C09_static_set_equal_range_ill_formed' in opn
+                    if ub and co:
+                        continue
+                    if ub and ss and e.startswith('equal_range') and not eqr_ok:
+                        continue
                     add(e, subj, cmp_, cap, na, confirm_only=co, extra=x)
+                new_open = ss and 'C09_static_set_insert_iterator_new' in opn
+                dup_open = ss and 'C09_static_set_insert_iterator_dup' in opn
+                # static_set: nothing is left outside the two open iterator regions unless the set is full (NA == CAP keeps the full-set case)
+                whole = na < cap and new_open and (dup_open or na == 0)
                 for e in INS:
+                    if not full and e == 'insert_r':
+                        continue
                     add(e, subj, cmp_, cap, na)
-                for e in INS_IT:
-                    # static_set: both halves of the iterator result are wrong on the pinned tree (new key: one past; duplicate: nullptr)
-                    new_open = ss and 'C09_static_set_insert_iterator_new' in opn
-                    dup_open = ss and 'C09_static_set_insert_iterator_dup' in opn
-                    whole = na < cap and new_open and (dup_open or na == 0)     # nothing is left outside the open regions (NA == CAP keeps the full-set case)
-                    add(e, subj, cmp_, cap, na, confirm_only=whole)
+                    if not ub:
+                        add(e + '_it', subj, cmp_, cap, na, confirm_only=whole)
                 add('erase_key', subj, cmp_, cap, na,
-                    confirm_only=(ss and cmp_ == 1 and na >= 1 and 'C09_static_set_erase_key_ignores_compare' in opn))
+                    confirm_only=(not ub and ss and cmp_ == 1 and na >= 1 and 'C09_static_set_erase_key_ignores_compare' in opn))
+                if lvl == 0:
+                    continue
                 if na >= 1:
                     add('erase_it', subj, cmp_, cap, na)
                 add('erase_range', subj, cmp_, cap, na)
                 if not ss:
                     for e in HINT:
+                        if not full and e != 'insert_hint_l':
+                            continue
                         add(e, subj, cmp_, cap, na)
-                    if na >= 1:
+                    if na >= 1 and full:
                         add('erase_cit', subj, cmp_, cap, na)
-                    add('extract', subj, cmp_, cap, na, unwind=max(cap + 3, 22), confirm_only=(na >= 1 and 'C09_flat_set_extract_empty' in opn))
+                    if full:
+                        add('extract', subj, cmp_, cap, na, unwind=max(cap + 3, 22), confirm_only=(not ub and na >= 1 and 'C09_flat_set_extract_empty' in opn))
                 for nb in range(cap + 1):
-                    if tier == 'quick' and cmp_ == 2 and nb not in (0, cap):
-                        continue
-                    add('swap_member', subj, cmp_, cap, na, nb)
-                    add('swap_free', subj, cmp_, cap, na, nb)
-                    if nb >= 1:
+                    rot = nb == (na + 2) % (cap + 1)
+                    if full or rot:
+                        add('swap_member', subj, cmp_, cap, na, nb)
+                    if (full and not quick) or nb == (na + 1) % (cap + 1):
+                        add('swap_free', subj, cmp_, cap, na, nb)
+                    if nb >= 1 and (full or nb == 2):
                         add('insert_range', subj, cmp_, cap, na, nb)
-                    if not ss:
-                        add('replace', subj, cmp_, cap, na, nb)
+                    if not ss and full:
+                        if not quick or na in (0, cap) or rot:
+                            add('replace', subj, cmp_, cap, na, nb)
                         if insu_ok:
                             add('insert_su_range', subj, cmp_, cap, na, nb, extra={'HAVE_FS_INS_SU': 1})
-            if not ss and not insu_ok and cap == 3 and cmp_ == 0:
+            if not ss and not insu_ok and cap == 3 and cmp_ == 0 and not ub:
                 add('insert_su_range', subj, cmp_, cap, 1, 1, confirm_only='C09_flat_set_insert_sorted_unique_undefined' in opn)
-            add('default_ctor', subj, cmp_, cap, 0)
+            if full:
+                add('default_ctor', subj, cmp_, cap, 0)
             for nb in range(cap + 1):
+                if lvl == 0 and nb != cap:
+                    continue
                 add('from_range', subj, cmp_, cap, 0, nb)
                 if not ss:
                     add('from_container', subj, cmp_, cap, 0, nb)
-                    add('from_su_container', subj, cmp_, cap, 0, nb)
+                    if full:
+                        add('from_su_container', subj, cmp_, cap, 0, nb)
         # flat_set over inplace_vector: what compiles
         for na in range(cap + 1):
-            add('observe', 2, cmp_, cap, na)
-            add('clear', 2, cmp_, cap, na)
+            if full:
+                add('observe', 2, cmp_, cap, na)
+                add('clear', 2, cmp_, cap, na)
+                add('extract', 2, cmp_, cap, na, unwind=max(cap + 3, 22), confirm_only=(not ub and na >= 1 and 'C09_flat_set_extract_empty' in opn))
             for e in LOOKUP + (LOOKUP_H if cmp_ == 2 else []):
                 add(e, 2, cmp_, cap, na)
-            add('extract', 2, cmp_, cap, na, unwind=max(cap + 3, 22), confirm_only=(na >= 1 and 'C09_flat_set_extract_empty' in opn))
-        add('default_ctor', 2, cmp_, cap, 0)
+        if full:
+            add('default_ctor', 2, cmp_, cap, 0)
         # flat_multiset over static_vector / inplace_vector
         for subj in (3, 4):
             gn = cap + cap * (cap - 1) + 3       # gnome sort: n forward steps + 2 per inversion
-            add('default_ctor', subj, cmp_, cap, 0)
+            if full:
+                add('default_ctor', subj, cmp_, cap, 0)
             for n in range(cap + 1):
-                add('observe', subj, cmp_, cap, n)
+                if full:
+                    add('observe', subj, cmp_, cap, n)
+                if lvl == 0 and n != cap:
+                    continue
                 add('from_container', subj, cmp_, cap, 0, n, unwind=gn)
     # hist
-    hist = [(3, 2)] if tier == 'quick' else [(3, 3), (2, 3)]
+    hist = [(3, 2)] if quick else [(3, 3), (2, 3)]
     for (cap, k) in hist:
         for subj in (0, 1):
             for cmp_ in ((0, 1) if not ub else (0,)):
-                add('hist', subj, cmp_, cap, 0, extra={'KSTEPS': k}, budget=300 if tier == 'quick' else 1800)
-    if tier == 'thorough' and not ub:
+                add('hist', subj, cmp_, cap, 0, extra={'KSTEPS': k}, budget=300 if quick else 1800)
+    if not quick and not ub:
         cap = 5
         for subj in (0, 1):
             for na in range(cap + 1):
-                for e in ['find', 'contains', 'lower_bound', 'upper_bound'] + INS + ['erase_key'] + (['erase_it'] if na else []):
+                for e in ['find', 'bounds'] + INS + ['erase_key'] + (['erase_it'] if na else []):
                     add(e, subj, 0, cap, na)
     return out
